@@ -50,6 +50,8 @@ func init() {
 	}
 	register(gridSim{})
 	simsFor["C16"] = []simWeight{{"grid", 1}}
+	register(c12Sim{})
+	simsFor["C12"] = []simWeight{{"c12", 1}}
 	register(c13Sim{})
 	simsFor["C13"] = []simWeight{{"c13", 1}}
 	register(c04Sim{})
